@@ -72,7 +72,9 @@ func (b *Broadcaster[T]) subscribe(ctx context.Context, ch chan<- T) {
 	b.wg.Add(1)
 	go func() {
 		defer func() {
+			verifPoint("bcast.fwd.exit", "id", id)
 			close(closeEventCh)
+			verifPoint("bcast.fwd.exit.signalled", "id", id)
 
 			b.lock.Lock()
 			for i, eventCh := range b.eventChs {
@@ -92,6 +94,7 @@ func (b *Broadcaster[T]) subscribe(ctx context.Context, ch chan<- T) {
 			case <-b.closeCh:
 				return
 			case val := <-bufferedCh:
+				verifPoint("bcast.fwd.got", "id", id)
 				select {
 				case <-ctx.Done():
 					return
@@ -112,6 +115,7 @@ func (b *Broadcaster[T]) Broadcast(value T) {
 		return
 	}
 	for _, ev := range b.eventChs {
+		verifPoint("bcast.broadcast.next", "id", ev.id)
 		select {
 		case <-ev.closeEventCh:
 		case ev.ch <- value:
@@ -124,6 +128,7 @@ func (b *Broadcaster[T]) Broadcast(value T) {
 // the subscribers. The Broadcaster will be a no-op after this call.
 func (b *Broadcaster[T]) Close() {
 	defer b.wg.Wait()
+	verifPoint("bcast.close.enter")
 	b.lock.Lock()
 	if b.closed.CompareAndSwap(false, true) {
 		close(b.closeCh)
